@@ -130,7 +130,7 @@ static int64_t eval_rval(Node *node, char ***label);
 static bool is_const_expr(Node *node);
 static Node *assign(Token **rest, Token *tok);
 static Node *logor(Token **rest, Token *tok);
-static double eval_double(Node *node);
+static long double eval_double(Node *node);
 static Node *conditional(Token **rest, Token *tok);
 static Node *logand(Token **rest, Token *tok);
 static Node *bitor(Token **rest, Token *tok);
@@ -1527,6 +1527,11 @@ write_gvar_data(Relocation *cur, Initializer *init, Type *ty, char *buf, int off
     return cur;
   }
 
+  if (ty->kind == TY_LDOUBLE) {
+    *(long double *)(buf + offset) = eval_double(init->expr);
+    return cur;
+  }
+
   char **label = NULL;
   uint64_t val = eval2(new_cast(init->expr, ty), &label);
 
@@ -2093,7 +2098,7 @@ int64_t const_expr(Token **rest, Token *tok) {
   return eval(node);
 }
 
-static double eval_double(Node *node) {
+static long double eval_double(Node *node) {
   add_type(node);
 
   if (is_integer(node->ty)) {
